@@ -28,7 +28,7 @@ FORBIDDEN = re.compile(
 )
 
 TRUSTED_BASE = [
-    "Coq 8.16.1 kernel (coqc); vm_compute used for generated cases, FactsOK and refutation witnesses; no native_compute",
+    "Coq 8.16.1 kernel (coqc); vm_compute used for generated cases, the Gen/Facts*.v obligations and refutation witnesses; no native_compute",
     "harness/srcfacts.py (ast-based source-fact translator, fail-closed)",
     "correspondence harness (generators, canonicalisation, fault injector, scheduler) in /verif/harness",
     "oracles named in DESIGN.md section I.4 / I.7 (sha256 treated as injective, pickle, repr, uuid4, OS file system, CPython scheduling)",
